@@ -23,14 +23,14 @@ def frontier_jobs(tier):
     """O3: after every delivery through the real merge walk the reported heads are the frontier"""
     n = 3 if tier == "quick" else 4
     return [{"id": f"O3.frontier.register.n{n}", "func": "VerifH_C02_Deliver",
-             "conf": {"n": n, "kind": 0, "del": -1, "deliveries": 3, "hasfield": 1, "class": 2, "dag": "", "orders": "all", "shortid": 0},
+             "conf": {"n": n, "kind": 0, "del": -1, "deliveries": 3, "hasfield": 1, "class": 2, "dag": "", "orders": "all", "shortid": 0, "for": "C04", "fieldmask": 0},
              "_obligation": "O3", "_covers": ["delivered"], "unwind": 40, "reset_mode": True},
             {"id": "O3.frontier.counter.two-chains-3-2", "func": "VerifH_C02_Deliver",
-             "conf": {"n": 6, "kind": 1, "del": -1, "deliveries": 3, "hasfield": 1, "class": 2, "dag": _c02.SHAPES["two-chains-3-2"], "orders": "two", "shortid": 0},
+             "conf": {"n": 6, "kind": 1, "del": -1, "deliveries": 3, "hasfield": 1, "class": 2, "dag": _c02.SHAPES["two-chains-3-2"], "orders": "two", "shortid": 0, "for": "C04", "fieldmask": 0},
              "_obligation": "O3", "_covers": ["delivered"], "unwind": 60, "reset_mode": True},
             {"id": "O3.frontier.counter.long-short-merge-late-fork", "func": "VerifH_C02_Deliver",
              "conf": {"n": 8, "kind": 1, "del": -1, "deliveries": 2 if tier == "quick" else 3, "hasfield": 1, "class": 2,
-                      "dag": _c02.SHAPES["long-short-merge-late-fork"], "orders": "two", "shortid": 0},
+                      "dag": _c02.SHAPES["long-short-merge-late-fork"], "orders": "two", "shortid": 0, "for": "C04", "fieldmask": (1 << 5) | (1 << 6)},
              "_obligation": "O3", "_covers": ["delivered"], "unwind": 60, "reset_mode": True}]
 
 
@@ -39,10 +39,21 @@ from props import C11 as _c11
 
 def adddelta_jobs(tier):
     """O2: height rule and head replacement through the real AddDelta (create + update history of the C11 harness)"""
-    return [{"id": "O2.adddelta.history", "func": "VerifH_C11_History", "conf": {"doc": 0, "fcfg": 0, "class": 2},
+    return [{"id": "O2.adddelta.history", "func": "VerifH_C11_History", "conf": {"doc": 0, "fcfg": 0, "class": 2, "c04": 1},
              "_obligation": "O2", "_covers": ["history"], "unwind": 60},
-            {"id": "O2.adddelta.history.encrypted", "func": "VerifH_C11_History", "conf": {"doc": 1, "fcfg": 0, "class": 0},
-             "_obligation": "O2", "_covers": ["history"], "unwind": 60}]
+            {"id": "O2.adddelta.history.encrypted", "func": "VerifH_C11_History", "conf": {"doc": 1, "fcfg": 0, "class": 0, "c04": 1},
+             "_obligation": "O2", "_covers": ["history"], "unwind": 60},
+            {"id": "O2.adddelta.two-heads", "func": "VerifH_C11_MixedHeads", "conf": {"doc": 0, "c04": 1},
+             "_obligation": "O2", "_covers": ["mixed"], "unwind": 300}]
+
+
+from props import C20 as _c20
+
+
+def save_jobs(tier):
+    """O2 through the real collection.save (create + update of a real client.Document): height, parents, single head"""
+    return [{"id": "O2.save", "func": "VerifH_S1_Save", "conf": {"branchable": 0, "faults": 0, "dag": "", "orders": "all", "shortid": 0, "for": "C04"},
+             "map_order": True, "_obligation": "O2", "_covers": ["saved"], "unwind": 80}]
 
 
 PROPERTY = {
@@ -52,9 +63,10 @@ PROPERTY = {
         {"name": "block", "pkg": "internal/core/block", "files": ["zz_verif_block.go"], "common": ["intrinsics", "kvmodel"],
          "jobs": block_jobs, "overrides": OVR, "unwind": 30},
         dict(_c02.SUITE, name="frontier", jobs=frontier_jobs),
+        dict(_c20.SAVE_SUITE, name="save", jobs=save_jobs),
     ],
     "bounds": {"commits": "3 (quick) / 4 (thorough), <=2 parents, all hash orders, all downward-closed merged sets; plus fixed 6- and 8-commit histories (two hash orders) for the frontier of the document and of the field after 2-3 deliveries", "heads/links passed to New": "<=3, all permutations"},
     "assumptions": ["a block's link is a function of its content (synthetic CIDs inside the solver run; real ones natively in the frontier suite)", "kvmodel follows the corekv contract"],
     "outside_claim": ["'filed under the hash of its own bytes' and byte-identical genesis bytes (sha256, dag-cbor reflection)", "closure under ancestry as ensured by net.syncDAG (network, goroutines)",
-                      "AddDelta with more than one head (the height rule is checked through AddDelta for linear field histories, and through heads.List for the greatest height)"],
+                      "AddDelta with more than two heads (the height rule is checked through AddDelta for linear field histories and for a field with two heads of any heights 1..3)"],
 }
